@@ -127,6 +127,9 @@ impl Prop for C14 {
             .prop_map(|(kind, names, edges, via_file)| RtCase { kind, names, edges, via_file })
             .boxed()
     }
+    fn case_timeout_s(&self) -> u64 {
+        30
+    }
     fn random_cases(&self, tier: Tier) -> u32 {
         tier.pick(300_000, 3_000_000)
     }
